@@ -72,3 +72,72 @@ fn(D + "popitem", cls="ADict", props=["C50"], types={"item": "tupleval"}, raises
    ensures=["is_tuple(result, 2) and old(dhas(self.col, result[0])) and not dhas(self.col, result[0])",
             "result[1] is call(self.getter, old(dget(self.col, result[0])))"],
    modifies=["contents(self.col)"])
+
+
+# ---- _AssociationSet: view = {getter(m) for m in col}
+SS = A + "_AssociationSet."
+cls("ASet", fields={"col": "set", "getter": "fn", "creator": "fn"},
+    methods={"_create": A + "_AssociationSingleItem._create@set", "_get": A + "_AssociationSingleItem._get#set", "__contains__": SS + "__contains__",
+             "add": SS + "add", "discard": SS + "discard"})
+fn(A + "_AssociationSingleItem._create@set", abstract=True, cls="ASet", params=["self", "value"], returns="v", modifies=[],
+   ensures=["call(self.getter, result) is value", "result is not None"],
+   notes="creator(value): an intermediary object whose proxied value is `value` (the round trip the class documents as assumed)")
+fn(A + "_AssociationSingleItem._get#set", cls="ASet", props=["C50"], ensures=["result is call(self.getter, object_)"], modifies=[])
+
+
+def SHAS(x, col="seq(self.col)"):
+    return "any(call(self.getter, " + col + "[j]) is " + x + " for j in range(len(" + col + ")))"
+
+
+fn(SS + "__contains__", cls="ASet", props=["C50"], returns="bool", types={"member": "v"},
+   invariant={0: ["not any(call(self.getter, seq(self.col)[j]) is __o for j in range(_i))"]},
+   ensures=["result == " + SHAS("__o")], modifies=[])
+# distinct members carry distinct values (what makes the collection of values a set; creator / getter keep it: assumed round trip)
+INJ = ("all(all(implies(call(self.getter, seq(self.col)[a]) is call(self.getter, seq(self.col)[b]), a == b) "
+       "for b in range(len(seq(self.col)))) for a in range(len(seq(self.col))))")
+VHAS = "(lambda x: any(call(self.getter, m) is x for m in self.col))"
+fn(SS + "add", cls="ASet", props=["C50"], returns="none",
+   ensures=["forall(lambda x: any(call(self.getter, m) is x for m in self.col) == (old(any(call(self.getter, m) is x for m in self.col)) or x is __element))",
+            # a value that is already there adds no second member
+            "implies(old(any(call(self.getter, m) is __element for m in self.col)), contents(self.col) == old(contents(self.col)))",
+            # distinct members keep carrying distinct values
+            INJ],
+   requires=[INJ], modifies=["contents(self.col)"])
+
+HASV = "any(call(self.getter, m) is XX for m in self.col)"
+GONE = ["not " + HASV.replace("XX", "__element"),
+        "forall(lambda x: implies(x is not __element, " + HASV.replace("XX", "x") + " == old(" + HASV.replace("XX", "x") + ")))",
+        # at most the one member carrying the value leaves the collection
+        "forall(lambda m: implies(m in self.col, old(m in self.col)))",
+        "forall(lambda m: implies(old(m in self.col) and not (m in self.col), call(self.getter, m) is __element))"]
+fn(SS + "discard", cls="ASet", props=["C50"], returns="none", types={"member": "v"},
+   requires=[INJ],
+   invariant={0: ["not any(call(self.getter, seq(self.col)[j]) is __element for j in range(_i))", "contents(self.col) == old(contents(self.col))"]},
+   loop_modifies={0: []},
+   ensures=GONE + [INJ], modifies=["contents(self.col)"])
+fn(SS + "remove", cls="ASet", props=["C50"], returns="none", types={"member": "v"},
+   requires=[INJ], raises={"KeyError": "not " + HASV.replace("XX", "__element")},
+   invariant={0: ["not any(call(self.getter, seq(self.col)[j]) is __element for j in range(_i))", "contents(self.col) == old(contents(self.col))"]},
+   loop_modifies={0: []},
+   exc_ensures={"KeyError": ["contents(self.col) == old(contents(self.col))"]},
+   ensures=GONE + [INJ], modifies=["contents(self.col)"])
+fn(SS + "pop", cls="ASet", props=["C50"], types={"member": "v"}, raises={"KeyError": "len(seq(self.col)) == 0"},
+   requires=[INJ],
+   ensures=["old(" + HASV.replace("XX", "result") + ")", "not " + HASV.replace("XX", "result"),
+            "forall(lambda x: implies(x is not result, " + HASV.replace("XX", "x") + " == old(" + HASV.replace("XX", "x") + ")))"],
+   modifies=["contents(self.col)"])
+fn(A + "_AssociationCollection.__len__#set", cls="ASet", props=["C50"], returns="int", ensures=["result == len(seq(self.col))"], modifies=[])
+fn(SS + "__bool__", cls="ASet", props=["C50"], returns="bool", ensures=["result == (len(seq(self.col)) != 0)"], modifies=[])
+# in-place difference with another set: every value goes through discard()  (`|=` through add() stays in the bounded complement: the
+# invariant's equivalence over the view does not discharge within the solver budget)
+HV = "any(call(self.getter, m) is x for m in self.col)"
+SK = {"NotImplemented": "singleton"}
+SCAL = {"collections._set_binops_check_strict": "havoc:bool"}
+fn(SS + "__isub__", cls="ASet", props=["C50"], types={"s": "set", "value": "v"}, consts=SK, callees=SCAL,
+   requires=[INJ, "s is not self.col"],
+   invariant={0: ["forall(lambda x: " + HV + " == (old(" + HV + ") and not (x in prefix(seq(s), _i))))", INJ]},
+   loop_modifies={0: ["contents(self.col)"]},
+   ensures=["result is self or result is NotImplemented",
+            "implies(result is NotImplemented, contents(self.col) == old(contents(self.col)))",
+            "implies(result is self, forall(lambda x: " + HV + " == (old(" + HV + ") and not (x in s))))", INJ],
+   modifies=["contents(self.col)"])
